@@ -50,8 +50,8 @@ Definition spec_end (ai : bool) (n : Z) (x : option Z) : option Z :=
       else if ai then (if v <=? n then Some (v + 1) else None)
       else (if (1 <=? v) && (v <=? n + 1) then Some v else None)
   end.
-(* the standardiser itself lets the one-based end 0 through as 0 (refused later
-   because every accepted start is >= 1) *)
+(* proof-side helper: what std_end alone computes (it would let the one-based end
+   0 through as 0; the standardiser refuses that value before calling it) *)
 Definition spec_end_std (ai : bool) (n : Z) (x : option Z) : option Z :=
   match x with
   | Some 0 => if ai then Some 1 else Some 0
@@ -128,6 +128,22 @@ Proof.
       destruct (- n <=? Z.neg p) eqn:E1; [replace (n + Z.neg p + 1 <? 1) with false by lia|replace (n + Z.neg p + 1 <? 1) with true by lia]; reflexivity.
 Qed.
 
+Definition end_checked (ai : bool) (n : Z) (x : option Z) : res Z :=
+  let v := dflt (n + 1) (pre_idx ai x) in if v =? 0 then Err "ValueError" else std_end n v.
+
+Lemma end_checked_axis : forall ai n x, 1 <= n ->
+  end_checked ai n x = match spec_end ai n x with Some e => Ok e | None => Err "ValueError" end.
+Proof.
+  intros ai n x Hn. unfold end_checked. cbv zeta.
+  destruct x as [[|p|p]|]; destruct ai;
+    try (replace (dflt (n + 1) (pre_idx _ _) =? 0) with false by (unfold dflt, pre_idx; cbn; lia);
+         rewrite end_axis by lia; reflexivity).
+  - (* zero-based end 0 -> 1 *)
+    unfold dflt, pre_idx, spec_end, std_end. cbn [andb Z.leb Z.compare Z.add Z.eqb Pos.add Z.ltb].
+    replace (0 <=? n) with true by lia. replace (n + 1 <? 1) with false by lia. reflexivity.
+  - (* one-based end 0: refused *) reflexivity.
+Qed.
+
 Lemma std_start_err : forall n s k, std_start n s = Err k -> k = "ValueError"%string.
 Proof.
   intros n s k. unfold std_start. destruct (n <? s); [intros E; now inversion E|].
@@ -139,36 +155,52 @@ Proof.
   destruct (s <? 0); [destruct (n + s + 1 <? 1)|]; intros E; now inversion E.
 Qed.
 
-(* the code checks both zero starts first; since every refusal is a ValueError
-   this is the same as checking axis by axis *)
+(* the code checks both zero starts, then both zero ends, then the ranges axis by
+   axis; since every refusal is a ValueError this is the same as checking each
+   argument on its own *)
+Lemma bind_err_const : forall {A B} (r : res A) (f : A -> res B),
+  (forall k, r = Err k -> k = "ValueError"%string) -> (forall a, f a = Err "ValueError") ->
+  bind r f = Err "ValueError".
+Proof. intros A B r f Hr Hf. destruct r as [a|k]; cbn [bind]; [apply Hf|now rewrite (Hr k eq_refl)]. Qed.
+
 Lemma standardize_rc_axes : forall ai rs re cs ce R C,
   standardize_rc ai rs re cs ce R C =
   bind (start_checked ai R rs) (fun s =>
-  bind (std_end R (dflt (R + 1) (pre_idx ai re))) (fun e =>
+  bind (end_checked ai R re) (fun e =>
   bind (start_checked ai C cs) (fun c0 =>
-  bind (std_end C (dflt (C + 1) (pre_idx ai ce))) (fun c1 => Ok (s, e, c0, c1))))).
+  bind (end_checked ai C ce) (fun c1 => Ok (s, e, c0, c1))))).
 Proof.
-  intros. unfold standardize_rc, start_checked.
-  destruct (dflt 1 (pre_idx ai rs) =? 0) eqn:Er; destruct (dflt 1 (pre_idx ai cs) =? 0) eqn:Ec; cbn [orb bind]; try reflexivity.
-  - destruct (std_start R (dflt 1 (pre_idx ai rs))) as [s|k] eqn:E1; cbn [bind].
-    + destruct (std_end R (dflt (R + 1) (pre_idx ai re))) as [e|k] eqn:E2; cbn [bind]; [reflexivity|].
-      apply std_end_err in E2. now subst.
-    + apply std_start_err in E1. now subst.
+  intros. unfold standardize_rc, start_checked, end_checked. cbv zeta.
+  set (rs1 := dflt 1 (pre_idx ai rs)). set (re1 := dflt (R + 1) (pre_idx ai re)).
+  set (cs1 := dflt 1 (pre_idx ai cs)). set (ce1 := dflt (C + 1) (pre_idx ai ce)).
+  destruct (rs1 =? 0) eqn:Er; cbn [bind]; [now rewrite orb_true_r|].
+  rewrite orb_false_r.
+  destruct (re1 =? 0) eqn:Ee.
+  - (* row end 0 *) rewrite orb_true_r.
+    destruct (cs1 =? 0); symmetry; (apply bind_err_const; [apply std_start_err|reflexivity]).
+  - rewrite orb_false_r. destruct (cs1 =? 0) eqn:Ec.
+    + symmetry. apply bind_err_const; [apply std_start_err|]. intros s.
+      apply bind_err_const; [apply std_end_err|reflexivity].
+    + destruct (ce1 =? 0) eqn:Ef; [|reflexivity].
+      symmetry. apply bind_err_const; [apply std_start_err|]. intros s.
+      apply bind_err_const; [apply std_end_err|]. intros e.
+      apply bind_err_const; [apply std_start_err|reflexivity].
 Qed.
 
+(* the standardiser computes exactly the documented conventions *)
 Lemma standardize_rc_eq : forall ai rs re cs ce R C, 1 <= R -> 1 <= C ->
   standardize_rc ai rs re cs ce R C =
-  match spec_start ai R rs, spec_end_std ai R re, spec_start ai C cs, spec_end_std ai C ce with
+  match spec_start ai R rs, spec_end ai R re, spec_start ai C cs, spec_end ai C ce with
   | Some s, Some e, Some c0, Some c1 => Ok (s, e, c0, c1)
   | _, _, _, _ => Err "ValueError"
   end.
 Proof.
   intros ai rs re cs ce R C HR HC. rewrite standardize_rc_axes.
-  rewrite !start_axis, !end_axis by lia.
+  rewrite !start_axis, !end_checked_axis by lia.
   destruct (spec_start ai R rs); cbn [bind]; [|reflexivity].
-  destruct (spec_end_std ai R re); cbn [bind]; [|reflexivity].
+  destruct (spec_end ai R re); cbn [bind]; [|reflexivity].
   destruct (spec_start ai C cs); cbn [bind]; [|reflexivity].
-  destruct (spec_end_std ai C ce); cbn [bind]; reflexivity.
+  destruct (spec_end ai C ce); cbn [bind]; reflexivity.
 Qed.
 
 Lemma spec_end_std_cases : forall ai n x, 1 <= n ->
@@ -191,24 +223,14 @@ Lemma read_std_spec : forall ts R C th tw ai rs re cs ce, 1 <= R -> 1 <= C ->
 Proof.
   intros ts R C th tw ai rs re cs ce HR HC. unfold read_std. rewrite standardize_rc_eq by lia.
   unfold spec_region.
-  destruct (spec_start ai R rs) as [s|] eqn:Es; [|reflexivity].
-  apply spec_start_range in Es; [|lia].
-  destruct (spec_end_std_cases ai R re HR) as [Ee|[Ee0 EeN]].
-  - rewrite Ee. destruct (spec_end ai R re) as [e|] eqn:Ee'; [|reflexivity].
-    destruct (spec_start ai C cs) as [c0|] eqn:Ec; [|reflexivity].
-    apply spec_start_range in Ec; [|lia].
-    destruct (spec_end_std_cases ai C ce HC) as [Ef|[Ef0 EfN]].
-    + rewrite Ef. destruct (spec_end ai C ce) as [c1|] eqn:Ef'; [|reflexivity].
-      cbn [bind andb].
-      destruct ((s <=? e) && (c0 <=? c1)) eqn:E1.
-      * replace ((e - s <? 0) || (c1 - c0 <? 0)) with false by lia. reflexivity.
-      * replace ((e - s <? 0) || (c1 - c0 <? 0)) with true by lia. reflexivity.
-    + rewrite Ef0, EfN. cbn [bind andb].
-      replace ((e - s <? 0) || (0 - c0 <? 0)) with true by lia. reflexivity.
-  - rewrite Ee0, EeN.
-    destruct (spec_start ai C cs) as [c0|] eqn:Ec; [|reflexivity].
-    destruct (spec_end_std ai C ce) as [c1|] eqn:Ef; [|reflexivity].
-    cbn [bind andb]. replace ((0 - s <? 0) || (c1 - c0 <? 0)) with true by lia. reflexivity.
+  destruct (spec_start ai R rs) as [s|]; [|reflexivity].
+  destruct (spec_end ai R re) as [e|]; [|reflexivity].
+  destruct (spec_start ai C cs) as [c0|]; [|reflexivity].
+  destruct (spec_end ai C ce) as [c1|]; [|reflexivity].
+  cbn [bind andb].
+  destruct ((s <=? e) && (c0 <=? c1)) eqn:E1.
+  - replace ((e - s <? 0) || (c1 - c0 <? 0)) with false by lia. reflexivity.
+  - replace ((e - s <? 0) || (c1 - c0 <? 0)) with true by lia. reflexivity.
 Qed.
 
 (* a region is accepted exactly when the documented conventions denote one,
